@@ -386,7 +386,7 @@ pub fn decode_fuzz_input(data: &[u8]) -> Option<(SessionCfg, Vec<Op>)> {
         use_new: data[2] & 0x40 != 0,
         chunk: if data[2] & 0x80 != 0 { 1 } else { 0 },
         script: if data[2] & 0x20 != 0 {
-            vec![HAction { writes: vec![WCall { kind: WKind::Str, text: "o\nk".into() }, WCall { kind: WKind::Ln, text: "".into() }], set_prompt: Some(((data[2] >> 3) % 6) as usize), fail: false }]
+            vec![HAction { writes: vec![WCall { kind: WKind::Str, text: "o\nk".into() }, WCall { kind: WKind::Ln, text: "".into() }], set_prompt: Some(((data[2] >> 3) % 6) as usize), fail: false, reject: false }]
         } else {
             vec![]
         },
@@ -423,7 +423,7 @@ fn lean_arrays<const N: usize, const M: usize>(ops: &[Op], default_builder: bool
     use embedded_cli::cli::CliBuilder;
     use embedded_cli::command::RawCommand;
     let sink = MonSink::new();
-    let mut proc = RecProc::new(vec![HAction { writes: vec![WCall { kind: WKind::Str, text: "ok".into() }], set_prompt: None, fail: false }], None);
+    let mut proc = RecProc::new(vec![HAction { writes: vec![WCall { kind: WKind::Str, text: "ok".into() }], set_prompt: None, fail: false, reject: false }], None);
     macro_rules! drive {
         ($cli:expr) => {{
             let mut cli = $cli;
